@@ -1,11 +1,49 @@
 ------------------------------ MODULE Trace_Inc ------------------------------
 (* Trace validation for property C06: each line of the log is one public call                  *)
 (*   d.inc(...) / d.exc(...) / d.find_<c>(...) / d.one_or_none(...)                            *)
-(* on a real dictable, with the table before and after the call and the encoded outcome.       *)
-EXTENDS Table, Batch
+(* on a real dictable, with the table before and after the call and the encoded outcome;        *)
+(* or (op = "session") one recorded HISTORY of such calls on one table, all taking their filters *)
+(* from one pool of caller-owned objects (IncSession.tla), with the pool and the table as the     *)
+(* caller sees them after every call.                                                            *)
+EXTENDS IncSession, Batch
 
 IsTable(o) == o.kind = "table"
+
+\* one call e = [call, out, pool_after, t_after] of a recorded session on table t with the pool p0 as it was
+\* BEFORE THE FIRST call: nothing of the caller's may have changed, and the outcome is judged against the
+\* ORIGINAL contents of the filters (calls outside the statement's domain are only held to the first two)
+CallClause(t, p0, e) ==
+    LET cl == e.call  out == e.out  cd == CondOf(p0, cl) IN
+    IF e.t_after # t THEN "operand_changed"
+    ELSE IF e.pool_after # p0 THEN "filter_argument_changed"
+    ELSE IF ~InDomain(t, p0, cl) THEN ""
+    ELSE IF out \in MixedRaises(t, cl, cd) THEN ""          \* named deviation MixedEmptied
+    ELSE CASE cl.op = "inc" ->
+                IF ~IsTable(out) THEN "inc_not_a_table"
+                ELSE IF Range(out.cols) # ColSet(t) THEN "inc_columns"
+                ELSE IF out.rows # IncC(t, cd).rows THEN "inc_rows" ELSE ""
+           [] cl.op = "exc" ->
+                IF ~IsTable(out) THEN "exc_not_a_table"
+                ELSE IF Range(out.cols) # ColSet(t) THEN "exc_columns"
+                ELSE IF out.rows \notin {x.rows : x \in ExcReadings(t, cd)} THEN "exc_rows" ELSE ""
+           [] cl.op = "find" ->
+                LET want == FindC(t, cl.col, cd) IN
+                IF out.kind = "exc" THEN (IF RaisesOut(out.cls) \in want THEN "" ELSE "find_raised")
+                ELSE IF out.kind = "val" /\ [kind |-> "val", v |-> out.v] \in want THEN "" ELSE "find_value"
+           [] cl.op = "one" ->
+                LET sel == OneSel(t, p0, cl) IN
+                IF Len(sel) = 0 THEN (IF out.kind = "none" THEN "" ELSE "one_or_none_empty")
+                ELSE IF Len(sel) = 1 THEN (IF out.kind = "row" /\ out.row = sel[1] THEN "" ELSE "one_or_none_single")
+                ELSE IF out.kind = "exc" /\ out.cls = "ValueError" THEN "" ELSE "one_or_none_multiple"
+           [] OTHER -> "unknown_op"
+\* the first call of the history the specification does not explain, as "<index>:<clause>"
+SessionVerdict(o) ==
+    LET bad == {k \in 1..Len(o.calls) : CallClause(o.t, o.pool, o.calls[k]) # ""} IN
+    IF bad = {} THEN ""
+    ELSE LET k == CHOOSE k \in bad : \A j \in bad : k <= j IN ToString(k) \o ":" \o CallClause(o.t, o.pool, o.calls[k])
+
 Verdict(o) ==
+    IF o.op = "session" THEN SessionVerdict(o) ELSE
     LET t == o.t  cond == o.cond  out == o.out IN
     IF o.after # t THEN "operand_changed"
     ELSE IF o.filter_after # o.filter_before THEN "filter_argument_changed"     \* the caller's dict of conditions is his own
